@@ -202,10 +202,16 @@ slot_of_pipeid(uint32_t id)
 }
 
 // newly completed user operations, in op order:  [{"op":k,"rv":"ok","m":tag,...}]
+static int auto_run, done_final;
 static void
 done_json(void)
 {
 	int first = 1;
+	if (auto_run && !done_final) {
+		// macro-step mode: completions are reported once, in obs.done, after running to quiescence
+		o("[]");
+		return;
+	}
 	o("[");
 	for (int i = 1; i <= MAXOPS; i++) {
 		op_t *op = &ops[i];
@@ -286,6 +292,25 @@ settle(void)
 	abort();
 }
 
+// auto mode (macro-step specifications): after every command run every runnable callback, and the ones
+// they make runnable, until the library is quiescent
+static void
+quiesce(void)
+{
+	if (!auto_run) {
+		return;
+	}
+	for (int i = 0; i < 10000; i++) {
+		int n = dee_run_all(10000);
+		settle();
+		if (n == 0 && dee_npending() == 0) {
+			return;
+		}
+	}
+	fprintf(stderr, "driver: watchdog: library does not become quiescent\n");
+	abort();
+}
+
 static const char *
 role_of(const char *sym)
 {
@@ -300,7 +325,15 @@ obs_json(void)
 	dee_task t[DEE_MAXTASKS];
 	int      n = dee_pending(t, DEE_MAXTASKS);
 	int      fd, rv;
-	o("\"obs\":{\"S_pend\":[");
+	o("\"obs\":{");
+	if (auto_run) {
+		done_final = 1;
+		o("\"done\":");
+		done_json();
+		o(",");
+		done_final = 0;
+	}
+	o("\"S_pend\":[");
 	for (int k = 0; k < n; k++) {
 		const char *sym = dee_symname((void *) t[k].cb);
 		int         id  = 0;
@@ -444,6 +477,7 @@ main(int argc, char **argv)
 			memset(ops, 0, sizeof(ops));
 			memset(dying, 0, sizeof(dying));
 			memset(ctx_open_, 0, sizeof(ctx_open_));
+			auto_run = 0;
 			vt_reset();
 			live0 = acct_live_blocks();
 			acct_dump_since(acct_total_allocs());
@@ -490,6 +524,10 @@ main(int argc, char **argv)
 				acct_dump_live(8);
 			}
 			fflush(stdout);
+			continue;
+		}
+		if (!strcmp(cmd, "auto")) {
+			auto_run = atoi(a1);
 			continue;
 		}
 		if (!strcmp(cmd, "proto")) {
@@ -685,6 +723,7 @@ main(int argc, char **argv)
 			return 3;
 		}
 	finish:
+		quiesce();
 		obs_json();
 		o("}");
 		emit();
